@@ -1087,8 +1087,8 @@ def h_quantifier(mode, outer_is):
         tail = p.events[last_loop + 1:]
         if is_bool(p.val, True):
             ctx.classes['true'] += 1
-            ex = [e for e in p.events if e[0] == 'exhausted' and e[1] == 'all']
             outer = slices[0] if slices else None
+            ex = [e for e in p.events if e[0] == 'cursor-end' and outer is not None and e[1] == outer[1]]
             full = outer is not None and z.entails_eq(outer[2], 0) and z.entails_eq(outer[3], st.maps[outer[1]].len0)
             if not slices:
                 # nothing to scan: only acceptable when the scanned operand is empty
@@ -1356,10 +1356,37 @@ def h_filter_hint(pol):
             # (remaining, other.len() or their minimum are all valid upper bounds only if >= the true maximum
             #  min(remaining, other.len()); `remaining` and the minimum qualify, other.len() alone does not)
             if up is not None and same(up, ('int', olen)) and not same(up, rem):
-                ok_up = False
+                # other.len() alone is a valid upper bound only on a path where other.len() <= remaining
+                ok_up = _path_implies_le(p, ('int', olen), rem, same)
             ctx.req('HINT', ok_up, nm + ':upper',
                     'the upper bound may not be below min(remaining, other.len())', p)
     return h
+
+
+def _path_implies_le(p, a, b, same):
+    """do the integer branch decisions taken on this path imply a <= b ?  (a, b abstract ints)"""
+    for e in p.events:
+        if e[0] != 'cond':
+            continue
+        c, truth = e[1], e[2]
+        while c[0] == 'Not':
+            c, truth = c[1], not truth
+        op, x, y = c
+
+        def val(t):
+            return t if isinstance(t, tuple) else ('int', t)
+        x, y = val(x), val(y)
+        if not truth:
+            op = {'Lt': 'Ge', 'Le': 'Gt', 'Gt': 'Le', 'Ge': 'Lt', 'Eq': 'Ne', 'Ne': 'Eq'}[op]
+        # normalise to  L <= R  or  L < R
+        if op in ('Ge', 'Gt'):
+            x, y = y, x
+            op = {'Ge': 'Le', 'Gt': 'Lt'}[op]
+        if op in ('Le', 'Lt', 'Eq') and same(x, a) and same(y, b):
+            return True
+        if op == 'Eq' and same(x, b) and same(y, a):
+            return True
+    return False
 
 
 def _describe_parts(p, v):
